@@ -123,6 +123,33 @@ let es_handler (args : string list) : string =
        | _ -> main)
   | _ -> "?bad-ES"
 
+(* EBLK <method> <start> <count> : FNV-1a 64 over the flattened outputs of one method on a block of arguments *)
+let fnv_init = ZA.of_string "14695981039346656037"
+let fnv_prime = ZA.of_string "1099511628211"
+let mask64 = ZA.pred (ZA.shift_left ZA.one 64)
+let fnv_add (h : ZA.t) (b : int) : ZA.t = ZA.logand (ZA.mul (ZA.logxor h (ZA.of_int b)) fnv_prime) mask64
+
+let eblk_handler (args : string list) : string =
+  match args with
+  | [m; st; cnt] ->
+      let start = ZA.of_string st and count = int_of_string cnt in
+      let f : ZA.t -> bytes =
+        (match m with
+         | "u32" -> (fun x -> flat (enc_u32 (n_of_zt x)))
+         | "i32" -> (fun x -> flat (enc_i32 (z_of_zt x)))
+         | "f32" -> (fun x -> flat (enc_f32 (n_of_zt x)))
+         | "u64lo" -> (fun x -> flat (enc_u64 (n_of_zt x)))
+         | "i64lo" -> (fun x -> flat (enc_i64 (z_of_zt x)))
+         | _ -> failwith "method") in
+      let h = ref fnv_init in
+      for k = 0 to count - 1 do
+        let bs = f (ZA.add start (ZA.of_int k)) in
+        List.iter (fun b -> h := fnv_add !h (int_of_n b)) bs;
+        h := fnv_add !h 255
+      done;
+      Printf.sprintf "%s" (ZA.format "%016x" !h)
+  | _ -> "?bad-EBLK"
+
 (* IC <z> : data::Int conversions *)
 let ic_handler (args : string list) : string =
   match args with
@@ -151,6 +178,7 @@ let ic_handler (args : string list) : string =
 
 let () =
   register "IC" ic_handler;
+  register "EBLK" eblk_handler;
   register "ES" es_handler;
   register "E" e_handler;
   register "D" d_handler
